@@ -17,5 +17,6 @@ func moreGens() []struct {
 		{"C08Facts.v", genC08Facts},   // C08
 		{"NavShape.v", genNavShape},   // C11
 		{"CsvCfg.v", genCsvCfg},       // C06
+		{"Occurs.v", genOccurs},       // C05
 	}
 }
